@@ -1,6 +1,6 @@
 import PPLV.Checked.Spec
 import PPLV.Checked.Bounded
-import PPLV.Checked.ModelFixed
+import PPLV.Checked.ModelAsWritten
 /-!
 `pplv_c11`: reads the journal of `harness/c11_checked.cc` on stdin (grammar there) and, for every
 executed case, (1) runs the code-shaped model `IntOp.run`, (2) evaluates — independently of the
@@ -118,7 +118,7 @@ def checkCase (fx : Fixes) (t : IntTy) (π : Policy) (tn pn opn : String) (op : 
     if !IntOp.pre t π op a then { skipped := true, obligations := [], nontrivial := false, line := fun _ => "" }
     else
       let realRes := Result.ofNat realCode
-      let (ms, mr) := IntOp.runF fx t π op dir a
+      let (ms, mr) := IntOp.runM fx t π op dir a
       let msw := t.wrap ms
       let exact := IntOp.exact t π op a
       let st := t.denote π realStored
@@ -303,7 +303,7 @@ def runProgModel (fx : Fixes) (t : IntTy) (π : Policy) (instrs : List String) (
       match progOp nm with
       | some op =>
         let di := tokNat d
-        let out := IntOp.runF fx t π op .ignore { to0 := r[di]!, x := r[tokNat a]!, y := r[tokNat b]! }
+        let out := IntOp.runM fx t π op .ignore { to0 := r[di]!, x := r[tokNat a]!, y := r[tokNat b]! }
         if throws out.2 then return (some k, r)
         r := r.set! di (t.wrap out.1)
       | none => return (some 999, r)
